@@ -46,8 +46,12 @@ func runCell(c string) (out string) {
 		at, _ := strconv.Atoi(f[8])
 		return runEngineCell(f[:8], at)
 	}
+	if len(f) == 6 && f[0] == "dec" {
+		return runDecCell(f)
+	}
 	sized := len(f) == 13 && f[0] == "sized"
-	if !sized && (len(f) < 8 || len(f) > 10 || f[0] != "cell") {
+	withChosen := len(f) == 11 && f[0] == "chosen"
+	if !sized && !withChosen && (len(f) < 8 || len(f) > 10 || f[0] != "cell") {
 		return "unknown-case"
 	}
 	eof, fsKind := 0, a08.FsMem
@@ -88,7 +92,16 @@ func runCell(c string) (out string) {
 			}
 		}
 	}
-	b, err := a08.BuildFSOpt(kind, preload, limit, passes, es, nil, eof, fsKind, opts)
+	var chosen []string
+	if withChosen && f[10] != "-" {
+		// <tags>: the chosencases filter, as indexes of tags (entry i carries tag t<i>)
+		for _, t := range strings.Split(f[10], ",") {
+			chosen = append(chosen, "t"+t)
+		}
+	}
+	// grpc/json: the ammo file is named through `source.path` in every other configuration
+	opts.SourcePath = kind == "grpcjson" && (n+limit+passes)%2 == 1
+	b, err := a08.BuildFSOpt(kind, preload, limit, passes, es, chosen, eof, fsKind, opts)
 	if err != nil {
 		return "0 - closed construct -" // the constructor refused the file: there is no Run and no sink
 	}
@@ -99,6 +112,28 @@ func runCell(c string) (out string) {
 		h = b.Audit.Summary() // Run has returned: its deferred calls are done
 	}
 	return o.String() + " " + h
+}
+
+// dec <kind> <limit> <passes> <n> <eof>: an http decoder driven directly (Limit and Passes are the
+// decoder's own), Scan until it returns an error. Observation: <count> <seq> <class of the error | ->
+func runDecCell(f []string) string {
+	limit, _ := strconv.Atoi(f[2])
+	passes, _ := strconv.Atoi(f[3])
+	n, _ := strconv.Atoi(f[4])
+	eof, _ := strconv.Atoi(f[5])
+	seq, cls, err := a08.ScanDecoder(f[1], limit, passes, a08.DefaultEntries(n), eof, limit+passes*n+3*n+5)
+	if err != nil {
+		return "0 - construct"
+	}
+	s := "-"
+	if len(seq) > 0 {
+		parts := make([]string, len(seq))
+		for i, v := range seq {
+			parts[i] = strconv.Itoa(v)
+		}
+		s = strings.Join(parts, ",")
+	}
+	return fmt.Sprintf("%d %s %s", len(seq), s, cls)
 }
 
 // engine <kind> <preload> <limit> <passes> <n> <instances> [<fs>]: the provider under the real engine.
@@ -220,6 +255,35 @@ func gen(r *vh.Rand, tier string) []string {
 		}
 	}
 	out = append(out, genSized(r, tier)...)
+	// the chosencases filter (http kinds and grpc/json): the bounds count what is delivered — limit
+	// items, passes over the MATCHING entries; a filter that matches nothing ends the run, nobody blocked
+	for i, pc := range provCfgs() {
+		if !a08.IsHTTP(pc.kind) && pc.kind != "grpcjson" {
+			continue
+		}
+		for j, lp := range [][2]int{{0, 2}, {3, 0}, {5, 2}, {0, 0}} {
+			for m, mask := range []string{"0", "1", "0,2", "2", "7", "1,2"} {
+				if tier != "thorough" && (i+j+m)%2 == 1 {
+					continue
+				}
+				cancel := "-"
+				if lp[0] == 0 && lp[1] == 0 {
+					cancel = strconv.Itoa(2 + m)
+				}
+				out = append(out, fmt.Sprintf("chosen %s %d %d %d 3 1 %s %d %d %s", pc.kind, pc.preload, lp[0], lp[1], cancel, (i+m)%a08.EOFLayouts, (j+m)%a08.FsKinds, mask))
+			}
+		}
+	}
+	// the http decoders driven directly: their own Limit / Passes counters and sentinels
+	for _, k := range a08.HTTPKinds {
+		for _, limit := range []int{0, 1, 2, 3, 5, 7} {
+			for _, passes := range []int{0, 1, 2, 3} {
+				for _, n := range []int{1, 2, 3} {
+					out = append(out, fmt.Sprintf("dec %s %d %d %d %d", k, limit, passes, n, (limit+passes+n)%a08.EOFLayouts))
+				}
+			}
+		}
+	}
 	// every provider under the real engine: instances see end of ammo, Engine.Run returns nil
 	for _, pc := range provCfgs() {
 		for _, lp := range [][2]int{{3, 0}, {0, 2}, {4, 3}, {7, 2}} {
